@@ -194,7 +194,7 @@ theorem step_preserves {shift : Nat} {lt : LexTree} {g : Fsg} {s s' : SState} (l
   refine ⟨by rw [hfr]; exact wf', ?_⟩
   obtain ⟨hsz, hact, hpn⟩ := hinv
   obtain ⟨hsz2, hact', hstep⟩ := hst
-  refine ⟨hsz2.trans hsz, ?_, ?_⟩
+  refine ⟨⟨hsz2.1.trans hsz.1, hsz2.2⟩, ?_, ?_⟩
   · intro p hp
     refine ⟨hact' p hp, ?_⟩
     rw [hfr]
@@ -268,7 +268,7 @@ theorem start_establishes {shift : Nat} {lt : LexTree} {g : Fsg} {s0 s : SState}
     have hz : e.pred.toNat = 0 := by simp at c6; omega
     refine ⟨lid, c1, c2, c3, c4, by omega, c7, c8, ?_⟩
     rw [hz, he0]; exact hd0.2.1
-  refine ⟨wf, hsz.trans h0sz, ?_, ?_⟩
+  refine ⟨wf, ⟨hsz.1.trans h0sz, hsz.2⟩, ?_, ?_⟩
   · intro p hp
     exact ⟨hact p hp, by rw [hfr]; exact ((hpn p (hact p hp)).2 hp).1⟩
   · intro p hpN
@@ -302,13 +302,33 @@ theorem finish_hmm (lt : LexTree) (s : SState) {p : Nat} (hp : p < s.hmms.size) 
 /-- **`fsg_search_finish` leaves every HMM cleared and both active lists empty** -/
 theorem finish_allCleared {lt : LexTree} {g : Fsg} {s : SState} (inv : HmmsInv lt g s) :
     AllCleared lt (finish lt s) := by
-  obtain ⟨hsz, _, hpn⟩ := inv
+  obtain ⟨⟨hsz, _⟩, _, hpn⟩ := inv
   refine ⟨rfl, by rw [finish_size]; exact hsz, ?_⟩
   intro p hpN
   rw [finish_hmm lt s (by omega)]
   by_cases hpa : p ∈ s.active
   · simp [hpa]
   · simp only [hpa, if_false]; exact (hpn p hpN).2 hpa
+
+/-! ### the active list is never longer than the lextree -/
+
+theorem nodup_length_le : ∀ (n : Nat) (l : List Nat), l.Nodup → (∀ x ∈ l, x < n) → l.length ≤ n
+  | 0, l, _, hs => by
+    cases l with
+    | nil => simp
+    | cons a t => exact absurd (hs a (List.mem_cons_self ..)) (by omega)
+  | n + 1, l, hn, hs => by
+    have h1 := nodup_length_le n (l.erase n) (hn.erase n) (fun x hx => by
+      have hm := (List.Nodup.mem_erase_iff hn).1 hx
+      have := hs x hm.2
+      have := hm.1
+      omega)
+    have h2 := List.length_erase (a := n) (l := l)
+    split at h2 <;> omega
+
+theorem active_length_le {lt : LexTree} {g : Fsg} {s : SState} (inv : HmmsInv lt g s) :
+    s.active.length ≤ lt.nodes.size :=
+  nodup_length_le _ _ inv.1.2 (fun p hp => (inv.2.1 p hp).1)
 
 /-! ### any number of frames, any number of utterances -/
 
